@@ -251,3 +251,12 @@ impl VWritable for std::io::Sink {
 }
 pub assume_specification<T>[ core::mem::replace ](dest: &mut T, src: T) -> (r: T)
     ensures *final(dest) == src, r == *old(dest);
+pub uninterp spec fn fs_exists(p: Seq<char>) -> bool;
+pub assume_specification[ std::path::Path::exists ](p: &std::path::Path) -> (r: bool)
+    ensures r == fs_exists(path_view(p));
+pub uninterp spec fn fs_is_file(p: Seq<char>) -> bool;
+pub assume_specification[ std::path::Path::is_file ](p: &std::path::Path) -> (r: bool)
+    ensures r == fs_is_file(path_view(p));
+pub uninterp spec fn fs_is_dir(p: Seq<char>) -> bool;
+pub assume_specification[ std::path::Path::is_dir ](p: &std::path::Path) -> (r: bool)
+    ensures r == fs_is_dir(path_view(p));
